@@ -7,7 +7,7 @@ use flac_codec::encode::{FlacStreamWriter, Options};
 use serde_json::{json, Value};
 use vph::refdec;
 
-pub const RULE: &str = "every case of the C01 space (a)-(l) (incl. all four writer front-ends and both byte orders) is encoded by the real crate and the finished bytes are judged by the independent strict validator (sync, reserved bits/codes, coded numbers, header/STREAMINFO consistency, CRC-8/16, zero padding, wasted-bit/predictor/partition/residual rules with UNTRUNCATED prediction, frame numbering, block sizes, sample count, MD5, frame-size extrema, no trailing bytes) and the independent decode must equal the input PCM; plus FlacStreamWriter output for all frame sequences of 1..2 frames × all PCM over Σ up to 3 PCM frames × channels 1..3 × subset depths with parameters changing between frames, and every FlacStreamWriter call history of 3 valid frames with ≤2 rejected calls (9 kinds: unsupported depth/rate, too many samples, odd sample count, empty slice, bad channel count) inserted at every position; plus write-call histories on 40-PCM-frame inputs (2.5 blocks; stereo 16-bit, mono 8-bit, 3-channel 20-bit) × 4 writers × declared/undeclared × every ≤2-cut history (byte writers in quick: a fixed 1/3 sub-lattice of the 2-cut pairs) × {plain, flush() after every call, dropped instead of finalized}; distinct outcomes = (set, verdict, subframe kinds, channel code, partition orders)";
+pub const RULE: &str = "every case of the C01 space (a)-(l) (incl. all four writer front-ends and both byte orders) is encoded by the real crate and the finished bytes are judged by the independent strict validator (sync, reserved bits/codes, coded numbers, header/STREAMINFO consistency, CRC-8/16, zero padding, wasted-bit/predictor/partition/residual rules with UNTRUNCATED prediction, frame numbering, block sizes, sample count, MD5, frame-size extrema, no trailing bytes) and the independent decode must equal the input PCM; plus FlacStreamWriter output for all frame sequences of 1..2 frames × all PCM over Σ up to 3 PCM frames × channels 1..3 × subset depths with parameters changing between frames, and every FlacStreamWriter call history of 3 valid frames with ≤2 rejected calls (9 kinds: unsupported depth/rate, too many samples, odd sample count, empty slice, bad channel count) inserted at every position; plus write-call histories on 40-PCM-frame inputs (2.5 blocks; stereo 16-bit, mono 8-bit, 3-channel 20-bit) × 4 writers × declared/undeclared × every ≤2-cut history (byte writers in quick: a fixed 1/3 sub-lattice of the 2-cut pairs) × {plain, flush() after every call, dropped instead of finalized, a sink accepting 3 bytes per write call (≤1-cut histories)}; distinct outcomes = (set, verdict, subframe kinds, channel code, partition orders)";
 pub const ASSUMPTIONS: &[&str] = &["refdec is bound to reality by decoding the libFLAC-made fixtures with matching MD5 and by inverting the independently written stream builder (selftest)", "same input bounds as C01"];
 pub fn bounds(quick: bool) -> Value {
     super::c01::bounds(quick)
@@ -145,7 +145,7 @@ pub fn run(ctx: &Ctx, acc: &mut Acc) {
 /// call (byte writers), dropped instead of finalized} on 2.5-block inputs — a frame emitted early or late by some
 /// history would be a short non-final block / a wrong MD5 even if the crate's own decoder still accepted the file.
 fn run_write_histories(ctx: &Ctx, acc: &mut Acc) {
-    use crate::codec::{encode_hist, WriterKind, WRITERS};
+    use crate::codec::{WriterKind, WRITERS};
     for sig in [Sig { rate: 44100, bps: 16, ch: 2 }, Sig { rate: 8000, bps: 8, ch: 1 }, Sig { rate: 48000, bps: 20, ch: 3 }] {
         let pcm = crate::corpus::ident_pcm(sig.ch, sig.bps, 40);
         for declared in [true, false] {
@@ -171,23 +171,25 @@ fn run_write_histories(ctx: &Ctx, acc: &mut Acc) {
                         continue;
                     }
                     acc.states += 1;
-                    for (flush, drop_it) in [(false, false), (true, false), (false, true)] {
-                        if flush && !byte {
+                    // (the last mode: a sink that accepts at most 3 bytes per write call, for the histories with ≤ 1 cut)
+                    for (flush, drop_it, sink) in [(false, false, 0usize), (true, false, 0), (false, true, 0), (false, false, 3)] {
+                        if (flush && !byte) || (sink > 0 && cuts.len() > 1) {
                             continue;
                         }
                         acc.executions += 1;
                         acc.transitions += cuts.len() as u64 + 2;
-                        let (out, v) = match encode_hist(w, &opt, &sig, &pcm, Some(&cuts), flush, drop_it) {
+                        let (out, v) = match crate::codec::encode_sink(w, &opt, &sig, &pcm, Some(&cuts), flush, drop_it, sink) {
                             Ok(bytes) => judge(&bytes, &pcm, &sig),
                             Err(e) => (format!("encode-{}", err_class(&e)), Some((format!("C02|encode|{}", err_class(&e)), format!("encoding failed: {e}")))),
                         };
-                        acc.outcome(format!("hist:{w:?}:{}{}:{out}", if flush { "flush" } else { "" }, if drop_it { "drop" } else { "" }));
+                        acc.outcome(format!("hist:{w:?}:{}{}{}:{out}", if flush { "flush" } else { "" }, if drop_it { "drop" } else { "" }, if sink > 0 { "short-sink" } else { "" }));
                         if let Some((s, what)) = v {
                             let mut case = case_json("hist-validate", w, &opt, &sig, &pcm);
                             case["cuts"] = json!(cuts);
                             case["flush"] = json!(flush);
                             case["drop"] = json!(drop_it);
-                            acc.violation(format!("{s}|hist{}{}", if flush { "+flush" } else { "" }, if drop_it { "+drop" } else { "" }), format!("{w:?} split at {cuts:?}{}{}: {what}", if flush { " with flush() after every call" } else { "" }, if drop_it { ", dropped instead of finalized" } else { "" }), case);
+                            case["sink"] = json!(sink);
+                            acc.violation(format!("{s}|hist{}{}{}", if flush { "+flush" } else { "" }, if drop_it { "+drop" } else { "" }, if sink > 0 { "+short-sink" } else { "" }), format!("{w:?} split at {cuts:?}{}{}{}: {what}", if flush { " with flush() after every call" } else { "" }, if drop_it { ", dropped instead of finalized" } else { "" }, if sink > 0 { ", over a sink that accepts 3 bytes per write call" } else { "" }), case);
                         }
                     }
                 }
@@ -288,7 +290,7 @@ pub fn replay(v: &Value) -> Option<(bool, String)> {
             let opt = Opt::from_json(&v["opt"]);
             let w = crate::codec::writer_from(v["writer"].as_str().unwrap_or(""));
             let cuts: Vec<usize> = v["cuts"].as_array()?.iter().map(|x| x.as_u64().unwrap_or(0) as usize).collect();
-            let (out, viol) = match crate::codec::encode_hist(w, &opt, &sig, &pcm, Some(&cuts), v["flush"].as_bool().unwrap_or(false), v["drop"].as_bool().unwrap_or(false)) {
+            let (out, viol) = match crate::codec::encode_sink(w, &opt, &sig, &pcm, Some(&cuts), v["flush"].as_bool().unwrap_or(false), v["drop"].as_bool().unwrap_or(false), v["sink"].as_u64().unwrap_or(0) as usize) {
                 Ok(bytes) => judge(&bytes, &pcm, &sig),
                 Err(e) => (format!("encode-{}", err_class(&e)), Some((String::new(), e))),
             };
